@@ -4,7 +4,9 @@
 (* answers, observation) must be a behaviour of Notify.  Executions are    *)
 (* concatenated; each starts with an "init" event.                         *)
 EXTENDS Notify, Json, IOUtils
-VARIABLE l
+VARIABLES l,
+          inloop,     \* between the "loopbegin" and "loop" events: internal steps of one mpt_loop run
+          ldef        \* mpt_loop's default flag: a default event is due when nothing is listed
 TraceLog == ndJsonDeserialize(IOEnv.TRACE)
 
 Reset ==
@@ -12,17 +14,19 @@ Reset ==
   /\ tab' = << >> /\ fin' = << >> /\ ever' = {} /\ ntok' = 0
   /\ obs' = [a |-> "init", arg |-> [x |-> 0],
              exp |-> [ret |-> "ok", calls |-> <<>>, def |-> Zero, table |-> <<>>]]
-  /\ att' = FALSE /\ nin' = 0 /\ ik' = << >> /\ reg' = {} /\ was' = {} /\ rel' = << >>
+  /\ att' = FALSE /\ dir' = FALSE /\ nin' = 0 /\ ik' = << >> /\ reg' = {} /\ was' = {} /\ rel' = << >>
   /\ wire' = << >> /\ eof' = << >> /\ buf' = << >> /\ sent' = << >> /\ last' = << >> /\ peek' = << >>
   /\ wait' = {} /\ cur' = 0 /\ conn' = << >>
   /\ NAnswer("init", [x |-> 0], "ok", {}, {}, <<>>)
 
 HR(arg) == <<arg.r, arg.clear>>
+Kill(ev) == IF "kill" \in DOMAIN ev.arg /\ Len(ev.arg.kill) = 2 THEN <<ev.arg.kill[1], ev.arg.kill[2]>> ELSE <<0, 0>>
 \* how many messages a library input has read completely so far is recorded (the driver measures the bytes each
 \* message took on the wire and the bytes the input left unread): this selects take
 Got(ev, i) == IF "got" \in DOMAIN ev.obs /\ i \in DOMAIN ev.obs.got THEN ev.obs.got[i] ELSE sent[i]
 TakeChoices(ev) ==
-  LET S == {i \in Served(ev.arg.what) : ik[i] \in {"s", "c", "f"} /\ wire[i] # <<>>}
+  LET S == {i \in Served(ev.arg.what) : Lib(ik[i]) /\ wire[i] # <<>>
+                                        /\ ~(KillOn(ev.arg.what, Kill(ev)) /\ i = Kill(ev)[2])}   \* what a removed input had read does not matter
   IN {[i \in S |-> Got(ev, i) - (sent[i] - Len(wire[i]))]}
 Known(i) == i \in reg
 \* whom mpt_notify_next returns is the implementation's choice: the recorded one must be listed
@@ -35,18 +39,23 @@ Step(ev) ==
     [] ev.a = "add"      -> NAdd(ev.arg.k) /\ ev.arg.tok = NewIn
     [] ev.a = "addsame"  -> IF Known(ev.arg.of) THEN NAddSame(ev.arg.of) ELSE NAddBad
     [] ev.a = "addbad"   -> NAddBad
+    [] ev.a = "addfile"  -> NAddFile
+    [] ev.a = "direct"   -> NDirect /\ ev.arg.tok = NewTok
     [] ev.a = "send"     -> IF Known(ev.arg.i) /\ ~eof[ev.arg.i] THEN NSend(ev.arg.i, ev.arg.data) ELSE NQuiet("send", ev.arg)
     [] ev.a = "shut"     -> IF Known(ev.arg.i) /\ ~eof[ev.arg.i] THEN NShut(ev.arg.i, ev.arg.how) ELSE NQuiet("shut", ev.arg)
     \* whether the kernel took the connection is the environment's answer (recorded)
     [] ev.a = "conn"     -> IF Known(ev.arg.i) /\ ev.obs.ret = "ok" THEN NConn(ev.arg.i) ELSE NQuiet("conn", ev.arg)
-    [] ev.a = "wait"     -> \E take \in TakeChoices(ev) : NWait(ev.arg.what, ev.arg.rvs, take)
+    \* whether an input removed by another one's next() had been served before is the kernel's order
+    [] ev.a = "wait"     -> \E take \in TakeChoices(ev), early \in BOOLEAN :
+                              NWait(ev.arg.what, ev.arg.rvs, take, Kill(ev), early)
     [] ev.a = "next"     -> NPop(ev.obs.cur)
     [] ev.a = "dispatch" -> IF cur # 0 THEN NHand(HR(ev.arg)) ELSE NQuiet("dispatch", ev.arg)
-    [] ev.a = "default"  -> IF att THEN NIdle(HR(ev.arg)) ELSE NQuiet("dispatch", ev.arg)
+    [] ev.a = "default"  -> IF att \/ dir THEN NIdle(HR(ev.arg)) ELSE NQuiet("dispatch", ev.arg)
     [] ev.a = "relist"   -> IF cur # 0 THEN NRelist ELSE NQuiet("relist", ev.arg)
     [] ev.a = "unreg"    -> IF Known(ev.arg.i) THEN NClear(ev.arg.i) ELSE NQuiet("unreg", ev.arg)
     [] ev.a = "fini"     -> NFini
     [] ev.a = "loop"     -> NQuiet("loop", ev.arg)
+    [] ev.a = "loopbegin" -> NQuiet("loopbegin", ev.arg)
     [] OTHER             -> FALSE
 
 Matches(ev) ==
@@ -57,15 +66,38 @@ Matches(ev) ==
   /\ e.d.calls = o.d.calls /\ e.d.def = o.d.def /\ e.d.table = o.d.table
   /\ e.dany = 1 \/ e.d.ret = o.d.ret
 
-TraceInit == l = 1 /\ NInit
+(* mpt_loop: "the default-event bookkeeping follows the handler's returned flags".  The flag starts set iff there  *)
+(* is a handler and no input; every dispatch whose answer st (what the input handed back to the loop: negative or    *)
+(* not, Default flag) is not negative sets it to the answer's Default flag, a negative one leaves it; the default   *)
+(* event itself does the same with the handler's answer.  Demanded: a default event and the non-blocking wait before *)
+(* it happen only while the flag is set, the blocking wait only while it is not; the answer's Default flag is that    *)
+(* of the delivery (d.ret) whenever a handler was reached.                                                            *)
+Odd(n) == (n % 2) = 1
+LoopRule(ev) ==
+  IF ev.a = "init" THEN inloop' = FALSE /\ ldef' = FALSE
+  ELSE IF ev.a = "loopbegin" THEN inloop' = TRUE /\ ldef' = (reg = {} /\ (att \/ dir))
+  ELSE IF ev.a = "loop" THEN inloop' = FALSE /\ ldef' = FALSE
+  ELSE IF ~inloop THEN UNCHANGED <<inloop, ldef>>
+  ELSE /\ UNCHANGED inloop
+       /\ CASE ev.a = "dispatch" ->
+                 /\ ldef' = IF ev.obs.st.neg = 1 THEN ldef ELSE ev.obs.st.def = 1
+                 /\ (nobs'.exp.dany = 0 /\ nobs'.exp.d.ret >= 0) =>
+                       (ev.obs.st.neg = 0 /\ ev.obs.st.def = nobs'.exp.d.ret % 2)
+            [] ev.a = "default" ->
+                 /\ ldef
+                 /\ ldef' = IF nobs'.exp.d.ret < 0 THEN ldef ELSE Odd(nobs'.exp.d.ret)
+            [] ev.a = "wait" -> (ev.arg.blk = 1) = (~ldef) /\ UNCHANGED ldef
+            [] OTHER -> UNCHANGED ldef
+
+TraceInit == l = 1 /\ NInit /\ inloop = FALSE /\ ldef = FALSE
 
 TraceNext ==
   /\ l <= Len(TraceLog)
   /\ l' = l + 1
   /\ LET ev == TraceLog[l] IN
-       Step(ev) /\ Matches(ev)
+       Step(ev) /\ Matches(ev) /\ LoopRule(ev)
 
-TraceSpec == TraceInit /\ [][TraceNext]_<<nvars, l>>
+TraceSpec == TraceInit /\ [][TraceNext]_<<nvars, l, inloop, ldef>>
 
 TraceAccepted ==
   LET n == TLCGet("stats").diameter - 1 IN
